@@ -70,7 +70,7 @@ Lemma delegate_ext rec f m n s d s' d' y t : runner_ext rec ->
   delegate rec f m n s d = ROk s' d' y t -> extends s s'.
 Proof.
   intros Hrec. unfold delegate. destruct (n_sub n) as [[init rep]|].
-  - destruct (resolve_lim rep d) as [r|]; [|discriminate].
+  - destruct (resolve_lim rep d) as [[r dr]|]; [|discriminate].
     destruct (cycles_loop _ _ _ _ _ _ _ _ _) as [s1 d1 y1 t1|c] eqn:E; [|discriminate].
     intros H; inversion H; subst. eapply cycles_loop_ext; eauto.
   - intros H; inversion H; subst. apply extends_refl.
@@ -78,9 +78,11 @@ Qed.
 
 Lemma finish_ok n e s2 d2 term s' d' y t :
   finish n e s2 d2 term = ROk s' d' y t ->
-  s' = s2 /\ t = term /\ y = transition n term s2 e /\ (forall e0, e = Some e0 -> sent s2 <= e0).
+  s' = s2 /\ t = term /\ (exists d3, y = fst (transition n term s2 e d3)) /\ (forall e0, e = Some e0 -> sent s2 <= e0).
 Proof.
   unfold finish. destruct (match n_struct n with Some st => struct_decode d2 st | None => Some d2 end) as [d3|]; [|discriminate].
+  destruct (transition n term s2 e d3) as [y0 d4] eqn:Et.
+  assert (exists dx, y0 = fst (transition n term s2 e dx)) as Hy by (exists d3; rewrite Et; reflexivity).
   destruct e as [e0|].
   - destruct (e0 <? sent s2) eqn:L; [discriminate|]. intros H; inversion H; subst.
     repeat split; auto. intros e1 E1; inversion E1; subst. apply Z.ltb_ge in L. exact L.
@@ -107,24 +109,24 @@ Qed.
 (* the shape of a successful run of one state *)
 Lemma run_state_ok_inv f m id s d ending s' d' y t :
   run_state (S f) m id s d ending = ROk s' d' y t ->
-  exists n s1 d1 lm d2 y2,
-    nth_error m id = Some n /\ process n s d = Some (s1, d1) /\ resolve_lim (n_limit n) d1 = Some lm /\
-    delegate (fun cur s0 d0 => run_state f m cur s0 d0 (min_ending ending (sent s1) lm)) f m n s1 d1 = ROk s' d2 y2 t /\
+  exists n s1 d1 lm d1' d2 y2,
+    nth_error m id = Some n /\ process n s d = Some (s1, d1) /\ resolve_lim (n_limit n) d1 = Some (lm, d1') /\
+    delegate (fun cur s0 d0 => run_state f m cur s0 d0 (min_ending ending (sent s1) lm)) f m n s1 d1' = ROk s' d2 y2 t /\
     finish n (min_ending ending (sent s1) lm) s' d2 t = ROk s' d' y t.
 Proof.
   cbn [run_state]. destruct (nth_error m id) as [n|]; [|discriminate].
   destruct (process n s d) as [[s1 d1]|] eqn:Ep; [|discriminate].
-  destruct (resolve_lim (n_limit n) d1) as [lm|] eqn:El; [|discriminate].
-  destruct (delegate _ f m n s1 d1) as [s2 d2 y2 t2|c] eqn:Ed; [|discriminate].
+  destruct (resolve_lim (n_limit n) d1) as [[lm d1']|] eqn:El; [|discriminate].
+  destruct (delegate _ f m n s1 d1') as [s2 d2 y2 t2|c] eqn:Ed; [|discriminate].
   intros H. pose proof (finish_ok _ _ _ _ _ _ _ _ _ H) as (-> & -> & _ & _).
-  exists n, s1, d1, lm, d2, y2. auto.
+  exists n, s1, d1, lm, d1', d2, y2. auto.
 Qed.
 
 (* ---- accounting: what is consumed is a prefix of the input, the rest is untouched, and sent counts it ---- *)
 Theorem run_state_ext fuel m ending : runner_ext (fun id s d => run_state fuel m id s d ending).
 Proof.
   revert ending. induction fuel as [|f IH]; intros ending cur s d s' d' y t H; [discriminate|].
-  apply run_state_ok_inv in H as (n & s1 & d1 & lm & d2 & y2 & _ & Ep & _ & Ed & _).
+  apply run_state_ok_inv in H as (n & s1 & d1 & lm & d1' & d2 & y2 & _ & Ep & _ & Ed & _).
   apply (extends_trans _ s1); [eapply process_ext; eauto|].
   eapply delegate_ext; [|exact Ed]. apply IH.
 Qed.
@@ -133,24 +135,24 @@ Qed.
 Theorem run_state_limit fuel m id s d ending s' d' y t :
   run_state fuel m id s d ending = ROk s' d' y t ->
   (forall e, ending = Some e -> sent s' <= e) /\
-  (forall n s1 d1 l, nth_error m id = Some n -> process n s d = Some (s1, d1) ->
-     resolve_lim (n_limit n) d1 = Some (Some l) -> sent s' <= sent s1 + l).
+  (forall n s1 d1 l dl, nth_error m id = Some n -> process n s d = Some (s1, d1) ->
+     resolve_lim (n_limit n) d1 = Some (Some l, dl) -> sent s' <= sent s1 + l).
 Proof.
   destruct fuel as [|f]; [discriminate|]. intros H.
-  apply run_state_ok_inv in H as (n & s1 & d1 & lm & d2 & y2 & En & Ep & El & _ & Ef).
+  apply run_state_ok_inv in H as (n & s1 & d1 & lm & d1' & d2 & y2 & En & Ep & El & _ & Ef).
   apply finish_ok in Ef as (_ & _ & _ & Hle). split.
   - intros e ->. destruct (proj1 (min_ending_le (Some e) (sent s1) lm) e eq_refl) as (e1 & E1 & L1).
     specialize (Hle e1 E1). lia.
-  - intros n' s1' d1' l En' Ep' El'. rewrite En in En'; inversion En'; subst n'.
-    rewrite Ep in Ep'; inversion Ep'; subst s1' d1'. rewrite El in El'; inversion El'; subst lm.
+  - intros n' s1' d1'' l dl En' Ep' El'. rewrite En in En'; inversion En'; subst n'.
+    rewrite Ep in Ep'; inversion Ep'; subst s1' d1''. rewrite El in El'; inversion El'; subst lm.
     destruct (proj2 (min_ending_le ending (sent s1) (Some l)) l eq_refl) as (e1 & E1 & L1).
     specialize (Hle e1 E1). lia.
 Qed.
 
 (* a limited parser (a dfa: consumes nothing itself) that completes took a prefix no longer than its limit and
    left the rest of the input, in order, to the enclosing grammar *)
-Theorem limited_parser_bounded fuel m id n s d ending l s' d' y t :
-  nth_error m id = Some n -> n_proc n = PNone -> resolve_lim (n_limit n) d = Some (Some l) ->
+Theorem limited_parser_bounded fuel m id n s d ending l dl s' d' y t :
+  nth_error m id = Some n -> n_proc n = PNone -> resolve_lim (n_limit n) d = Some (Some l, dl) ->
   run_state fuel m id s d ending = ROk s' d' y t ->
   exists k, avail s = k ++ avail s' /\ sent s' = sent s + Z.of_nat (length k) /\ Z.of_nat (length k) <= l.
 Proof.
@@ -159,15 +161,22 @@ Proof.
   exists k. split; [exact Ek|]. split; [exact Es|].
   destruct (run_state_limit _ _ _ _ _ _ _ _ _ _ H) as (_ & Hl).
   assert (process n s d = Some (s, d)) as Hp by (unfold process; rewrite Ep; reflexivity).
-  specialize (Hl n s d l En Hp El). lia.
+  specialize (Hl n s d l dl En Hp El). lia.
 Qed.
 
 (* once the limit is reached only the no-input edge is considered: the next symbol is not looked at *)
-Lemma limited_transition n term s e :
-  e <= sent s -> transition n term s (Some e) = if term && negb (n_greedy n) then None else lookup_edge NON (n_trans n).
+Lemma limited_transition n term s e d :
+  e <= sent s ->
+  transition n term s (Some e) d =
+    if term && negb (n_greedy n) then (None, d)
+    else match lookup_edge NON (n_trans n) with
+         | None => (None, d)
+         | Some cs => (Some (fst (decide_list cs d)), snd (decide_list cs d))
+         end.
 Proof.
   intros L. unfold transition. destruct (term && negb (n_greedy n)); [reflexivity|].
-  assert (e <=? sent s = true) as -> by (apply Z.leb_le; exact L). reflexivity.
+  assert (e <=? sent s = true) as -> by (apply Z.leb_le; exact L). cbn [choose].
+  destruct (lookup_edge NON (n_trans n)) as [cs|]; [|reflexivity]. destruct (decide_list cs d); reflexivity.
 Qed.
 
 (* an outer ending can only be tightened by a limit, never relaxed *)
@@ -216,18 +225,18 @@ Qed.
 Theorem repeat_exact f m id s d ending s' d' y :
   run_state (S f) m id s d ending = ROk s' d' y true ->
   forall n init rep, nth_error m id = Some n -> n_sub n = Some (init, rep) ->
-  exists s1 d1 d2 lm r,
-    process n s d = Some (s1, d1) /\ resolve_lim (n_limit n) d1 = Some lm /\ resolve_lim rep d1 = Some r /\
+  exists s1 d1 d1' d1'' d2 lm r,
+    process n s d = Some (s1, d1) /\ resolve_lim (n_limit n) d1 = Some (lm, d1') /\ resolve_lim rep d1' = Some (r, d1'') /\
     cycles_rel (fun cur s0 d0 => run_state f m cur s0 d0 (min_ending ending (sent s1) lm)) f init
-               (Z.to_nat (match r with None => 1 | Some z => z end)) s1 d1 s' d2.
+               (Z.to_nat (match r with None => 1 | Some z => z end)) s1 d1'' s' d2.
 Proof.
   intros H n init rep En Es.
-  apply run_state_ok_inv in H as (n' & s1 & d1 & lm & d2 & y2 & En' & Ep & El & Ed & _).
+  apply run_state_ok_inv in H as (n' & s1 & d1 & lm & d1' & d2 & y2 & En' & Ep & El & Ed & _).
   rewrite En in En'; inversion En'; subst n'.
   unfold delegate in Ed. rewrite Es in Ed.
-  destruct (resolve_lim rep d1) as [r|] eqn:Er; [|discriminate].
-  destruct (cycles_loop _ f init _ f 0 s1 d1 _) as [s2 d2' y2' t2|c] eqn:Ec; [|discriminate].
+  destruct (resolve_lim rep d1') as [[r d1'']|] eqn:Er; [|discriminate].
+  destruct (cycles_loop _ f init _ f 0 s1 d1'' _) as [s2 d2' y2' t2|c] eqn:Ec; [|discriminate].
   inversion Ed; subst. apply andb_true_iff in H3 as [_ ->].
   apply cycles_loop_count in Ec. rewrite Z.sub_0_r in Ec.
-  exists s1, d1, d2, lm, r. auto.
+  exists s1, d1, d1', d1'', d2, lm, r. auto.
 Qed.
